@@ -329,6 +329,30 @@ pub fn check_stream(whole: &[u8], cuts: &[usize]) -> CaseResult {
     Ok(out)
 }
 
+/// Encode the frames one after the other into a single buffer that already holds a few bytes.
+pub fn check_concat(items: &[(u8, u32, usize, u8)]) -> Result<(), Fail> {
+    let mut codec = FrameCodec;
+    let prefix = [0xEEu8, 0xDD, 0xCC];
+    let mut dst = BytesMut::from(&prefix[..]);
+    let mut want: Vec<u8> = prefix.to_vec();
+    for (i, (cmd, sid, len, seed)) in items.iter().enumerate() {
+        let cmd = rc::effective_cmd(*cmd);
+        let data = fill(*len, *seed);
+        rc::encode_into(&RFrame::new(cmd, *sid, data.clone()), &mut want);
+        let r = codec.encode(Frame::with_data(Command::from(cmd), *sid, Bytes::from(data)), &mut dst);
+        ensure!(r.is_ok(), "C03.wire", "encode of frame #{i} into a non-empty buffer failed: {:?}", r.err());
+        ensure!(
+            dst[..] == want[..],
+            "C03.wire",
+            "after appending frame #{i} (cmd {cmd}, {len} payload bytes) to a buffer that already held {} bytes, the buffer differs from the reference concatenation (got {} bytes, header of the new frame {:02x?})",
+            want.len() - 7 - len,
+            dst.len(),
+            &dst[dst.len().saturating_sub(7 + len)..dst.len().saturating_sub(*len).min(dst.len())]
+        );
+    }
+    Ok(())
+}
+
 fn frames_strategy() -> BoxedStrategy<Source> {
     let len = weighted_sizes(vec![(4, 0..=8), (4, 9..=64), (1, 254..=257), (1, 1000..=3000)]);
     let cmd = prop_oneof![3 => 0u8..=10, 1 => any::<u8>()];
@@ -409,6 +433,13 @@ impl Family for StreamFam {
     fn run(&self, case: &StreamCase, _cx: &CaseCtx) -> CaseResult {
         let whole = build_stream(&case.src);
         let cuts = cut_points(&case.cuts, whole.len());
-        check_stream(&whole, &cuts)
+        let mut out = check_stream(&whole, &cuts)?;
+        // "all concatenations of frames": the real encoder appending frame after frame to ONE
+        // buffer (the normal tokio-util Encoder usage) must produce the reference concatenation
+        if let Source::Frames(items, _) = &case.src {
+            check_concat(items)?;
+            out.class_if(items.len() >= 2, "encoder-appends>=2");
+        }
+        Ok(out)
     }
 }
